@@ -49,6 +49,12 @@ def payloads(rng, tier):
                            "table_seed": rng.choice([None, rng.randrange(1 << 30)])}
         if rng.random() < 0.3:
             yield "ctor", {"cfg": cfg}
+        if rng.random() < 0.25 and k <= 4:
+            a = dict(cfg)
+            if a["motifs"] is None:
+                a["motifs"] = ["".join(rng.choice(NUC) for _ in range(rng.randint(2, k)))]
+            yield "pipeline", {"first": a, "cfg": gen.related_cfg(rng, a), "t": rng.choice([1, 2]), "vsel": rng.randrange(1 << 20),
+                               "bits": gen.message(rng, 32), "fast": False, "table_seed": None}
     for _ in range(n // 3):
         k = rng.randint(1, kmax)
         dens = rng.choice([0.5, 0.7, 0.9])
@@ -100,6 +106,11 @@ def build(stream, p):
     info = {}
 
     def run():
+        if p.get("first") is not None:
+            try:            # an earlier generation for a closely related filter must leave nothing behind
+                dsw.find_vertices(observed_length=k, bio_filter=gen.make_filter(p["first"]))
+            except ValueError:
+                pass
         mask = dsw.find_vertices(observed_length=k, bio_filter=filt)
         v, acc = dsw.connect_coding_graph(observed_length=k, vertices=mask, threshold=t)
         retained = [int(x) for x in v] if t == 1 else [int(i) for i in np.where(np.asarray(v) != 0)[0]]
